@@ -52,7 +52,7 @@ def run(ctx):
         "is_clone/count_unique return exactly the reachable nodes with that id (Lean indexExactB on the observed state); new nodes obey the id rule; "
         "clone list order equals the model's. non-trivial/distinct as C01"
     )
-    ctx.budget_s = 900 if ctx.thorough else 100
+    ctx.budget_s = ctx.budget(900, 100)
     n = 4 if ctx.thorough else 3
     _hist.exhaustive_single_ops(ctx, out, judge, max_nodes=n, alphabet=[0, 1, 6],
                                 ops_of=lambda impl, ti: [o for o in _hist.all_single_ops(impl, ti, labels=[0, 6, 2]) if o["op"] in ("w.setdata", "w.remove", "w.move", "w.removechildren", "w.del")],
